@@ -451,8 +451,12 @@ func (x *ctx) setup() error {
 			})
 		case s.Outcome == "reset":
 			rg.setBehave(func(n int) action {
-				if n%3 == 0 {
+				switch n % 3 {
+				case 1:
 					return action{Kind: "eof"}
+				case 0:
+					// the protocol's own refusal: the single zero byte a server sends for equipment it does not know
+					return action{Kind: "reply", Reply: []byte{1, 0, 0}, CloseAfter: -1, Tag: -1} // length prefix 1, body 0
 				}
 				return action{Kind: "reset"}
 			})
